@@ -13,17 +13,18 @@ TECHNIQUE = ('runtime monitoring: __init__ log of generated user classes (logica
              '__dict__ snapshots before the first and after every load (identity of attribute-access dunders, textX bookkeeping '
              'attributes, per-object storage size)')
 RULE = ('tree models (generator of C13: nested blocks, leaves, references, one or two files via ImportURI) x user-class '
-        'variants (plain, __slots__, frozen-style __setattr__, own __setattr__/__getattribute__/__delattr__, inherited '
+        'variants (plain, __slots__, frozen-style __setattr__, own __setattr__/__getattribute__/__delattr__, inherited constructor, inherited '
         'dunders) x 6 loads per metamodel, a third of them failing (syntax error, unknown reference, failing match / object '
         'processor, failing constructor, failure inside the imported file). Checked: one __init__ per object; kwargs = rule '
         'attributes (+parent iff contained); no unresolved reference among the values; every __init__ before every common / '
         'abstract processor call; after every load the class snapshot equals the pre-load snapshot and no per-object '
         'storage is left. distinct = (class variant, tree shape, outcome); non-trivial = failing load or two-file load')
 REQUIRED = {'loads': 600, 'failed_loads': 100, 'init_calls_checked': 3000, 'snapshots_compared': 600, 'two_file_loads': 50,
-            'nested_failures': 15, 'class_variants': 4, 'loads_aborted_by_base_exception': 50, 'metamodels_with_annotating_provider': 50, 'loads_yielding_a_plain_value': 50}
+            'nested_failures': 15, 'class_variants': 4, 'max_class_variants': 7, 'loads_aborted_by_base_exception': 50, 'metamodels_with_annotating_provider': 50, 'loads_yielding_a_plain_value': 50}
 
-ATTRS = {'Block': {'name', 'first', 'items', 'alt', 'tag'}, 'Leaf': {'name', 'val'}, 'Ref': {'name', 'target'}}
-VARIANTS = ['plain', 'slots', 'frozen', 'dunders', 'inherited']
+ATTRS = {'Block': {'name', 'first', 'items', 'alt', 'tag'}, 'Leaf': {'name', 'val'}, 'Ref': {'name', 'target'},
+         'Model': {'imports', 'name', 'items'}}
+VARIANTS = ['plain', 'slots', 'frozen', 'dunders', 'inherited', 'inherited_init', 'slots_root']
 
 
 def make_classes(variant, rec):
@@ -69,6 +70,24 @@ def make_classes(variant, rec):
         Block = type('Block', (Base,), {'__init__': body('Block')})
         Leaf = type('Leaf', (Base,), {'__init__': body('Leaf')})
         return [Block, Leaf]
+    if variant == 'slots_root':
+        # a user class for the model object itself, without instance dictionary (textX's own bookkeeping attributes of a
+        # model cannot be stored on it)
+        Model = type('Model', (), {'__init__': body('Model'), '__slots__': ('imports', 'name', 'items', '__weakref__')})
+        Leaf = type('Leaf', (), {'__init__': body('Leaf')})
+        Block = type('Block', (), {'__init__': body('Block')})
+        return [Model, Leaf, Block]
+    if variant == 'inherited_init':
+        # the user classes define no constructor of their own: they inherit it from a common base class / from each other
+        def init(self, **kw):
+            rec(type(self).__name__, self, kw)
+            for k, v in kw.items():
+                object.__setattr__(self, k, v)
+        Base = type('Base', (), {'__init__': init})
+        Block = type('Block', (Base,), {})
+        Leaf = type('Leaf', (Base,), {'describe': lambda self: self.name})
+        Ref = type('Ref', (Leaf,), {})
+        return [Block, Leaf, Ref]
     raise ValueError(variant)
 
 
@@ -142,8 +161,8 @@ def one(ctx, i, rep=None):
     import textx.scoping.providers as sp
     rep = rep or {'i': i}
     r = ctx.rng('m', i)
-    variant = VARIANTS[i % len(VARIANTS)]
-    ctx.maxc('max_class_variants', i % len(VARIANTS) + 1)
+    variant = VARIANTS[(i // 2) % len(VARIANTS)]
+    ctx.maxc('max_class_variants', (i // 2) % len(VARIANTS) + 1)
     log = []
     clock = [0]
     fail_cfg = {'init_at': None, 'match': False, 'objproc': None, 'base': False}
@@ -188,8 +207,14 @@ def one(ctx, i, rep=None):
     mm.register_scope_providers({'*.*': Prov()})
     if annotate:
         ctx.count('metamodels_with_annotating_provider')
-    mm.register_obj_processors({'Model': proc('Model'), 'Block': proc('Block'), 'Leaf': proc('Leaf'), 'Ref': proc('Ref'),
-                                'Item': proc('Item'), 'Val': proc('Val', True), 'Tag': proc('Tag', True)})
+    if variant == 'slots_root':
+        # a model object without instance dictionary cannot keep textX's model-level bookkeeping (_tx_parser ...), which
+        # get_location - called for every object processor - reads: match processors only (construction and clean-up, the
+        # subject of C14, do not depend on it)
+        mm.register_obj_processors({'Val': proc('Val', True), 'Tag': proc('Tag', True)})
+    else:
+        mm.register_obj_processors({'Model': proc('Model'), 'Block': proc('Block'), 'Leaf': proc('Leaf'), 'Ref': proc('Ref'),
+                                    'Item': proc('Item'), 'Val': proc('Val', True), 'Tag': proc('Tag', True)})
     classes = [c for c in classes if c.__name__ in ATTRS]
     base = snapshot(classes)
     ctx.count('class_variants', 0)
@@ -217,6 +242,8 @@ def one(ctx, i, rep=None):
                                 'nested-syntax'])
             if failure in ('nested-unknown', 'nested-syntax') and not two_files:
                 failure = 'unknown-ref'
+            if failure == 'obj-proc' and variant == 'slots_root':
+                failure = 'init'
             fail_cfg.update(init_at=None, match=False, objproc=None, base=r.random() < 0.3)
             nobj = sum(1 for rt in roots for n in T.all_nodes(rt) if n['kind'] in user_kinds)
             if failure == 'syntax':
@@ -264,10 +291,16 @@ def one(ctx, i, rep=None):
                 ctx.count('loads_aborted_by_base_exception')
             except TypeError as e:
                 outcome = 'typeerror' if 'constructor failure' in str(e) or failure == 'init' else 'unexpected TypeError: %s' % e
+            except (AttributeError, KeyError, IndexError, AssertionError) as e:
+                outcome = 'internal error %s: %s' % (type(e).__name__, str(e)[:80])
             ctx.count('loads')
             wit = {'files': texts, 'class_variant': variant, 'injected_failure': failure, 'outcome': outcome, 'load_index': li}
             ctx.case((variant, tuple(n['kind'] for rt in roots for n in T.all_nodes(rt)), failure), failure is not None or two_files,
                      wit if ctx.evaluations < 2 else None)
+            if outcome.startswith('internal error'):
+                ctx.violation(None, 'the load (injected failure: %s, user classes %s) ended with an %s instead of the failure that was '
+                              'raised' % (failure, variant, outcome), wit, rep)
+                return
             if outcome != 'ok':
                 ctx.count('failed_loads')
             if (failure is None) != (outcome == 'ok'):
@@ -309,7 +342,7 @@ def one(ctx, i, rep=None):
                 for _, kind, oid, kw, t in inits:
                     keys = set(kw)
                     allowed = ATTRS[kind] | {'parent'}
-                    if not (ATTRS[kind] <= keys and keys <= allowed and 'parent' in keys):
+                    if not (ATTRS[kind] <= keys and keys <= allowed and ('parent' in keys) == (kind != 'Model')):
                         ctx.violation(None, '%s.__init__ received %s, the rule attributes are %s (+parent)' % (
                             kind, sorted(keys), sorted(ATTRS[kind])), wit, rep)
                         return
